@@ -795,6 +795,94 @@ structure Func where
   name : Bytes
   params : List (Ty × Ident)
   blocks : List Block
+  /-- the optional keywords in front of the return type (`define internal dso_local hidden fastcc T @f(…)`), as positions in `kLead`, in the order written -/
+  lead : List Nat := []
+
+/-! the keywords a function header may carry in front of its return type, family by family in the order the grammar fixes (ir/func.go LLString; the spellings are
+    those of the regenerated enum table: `Props/C18Header.lean` checks that) -/
+/-- enum.Linkage -/
+def kLinkage : List Bytes :=
+  [[97, 112, 112, 101, 110, 100, 105, 110, 103],
+   [97, 118, 97, 105, 108, 97, 98, 108, 101, 95, 101, 120, 116, 101, 114, 110, 97, 108, 108, 121],
+   [99, 111, 109, 109, 111, 110],
+   [105, 110, 116, 101, 114, 110, 97, 108],
+   [108, 105, 110, 107, 111, 110, 99, 101],
+   [108, 105, 110, 107, 111, 110, 99, 101, 95, 111, 100, 114],
+   [112, 114, 105, 118, 97, 116, 101],
+   [119, 101, 97, 107],
+   [119, 101, 97, 107, 95, 111, 100, 114],
+   [101, 120, 116, 101, 114, 110, 97, 108],
+   [101, 120, 116, 101, 114, 110, 95, 119, 101, 97, 107]]
+/-- enum.Preemption -/
+def kPreemption : List Bytes :=
+  [[100, 115, 111, 95, 108, 111, 99, 97, 108],
+   [100, 115, 111, 95, 112, 114, 101, 101, 109, 112, 116, 97, 98, 108, 101]]
+/-- enum.Visibility -/
+def kVisibility : List Bytes :=
+  [[100, 101, 102, 97, 117, 108, 116],
+   [104, 105, 100, 100, 101, 110],
+   [112, 114, 111, 116, 101, 99, 116, 101, 100]]
+/-- enum.DLLStorageClass -/
+def kDLL : List Bytes :=
+  [[100, 108, 108, 101, 120, 112, 111, 114, 116],
+   [100, 108, 108, 105, 109, 112, 111, 114, 116]]
+/-- enum.CallingConv: the conventions that have a keyword (`cc <n>` is outside the fragment) -/
+def kCallingConv : List Bytes :=
+  [[99, 99, 99],
+   [102, 97, 115, 116, 99, 99],
+   [99, 111, 108, 100, 99, 99],
+   [103, 104, 99, 99, 99],
+   [119, 101, 98, 107, 105, 116, 95, 106, 115, 99, 99],
+   [97, 110, 121, 114, 101, 103, 99, 99],
+   [112, 114, 101, 115, 101, 114, 118, 101, 95, 109, 111, 115, 116, 99, 99],
+   [112, 114, 101, 115, 101, 114, 118, 101, 95, 97, 108, 108, 99, 99],
+   [115, 119, 105, 102, 116, 99, 99],
+   [99, 120, 120, 95, 102, 97, 115, 116, 95, 116, 108, 115, 99, 99],
+   [116, 97, 105, 108, 99, 99],
+   [99, 102, 103, 117, 97, 114, 100, 95, 99, 104, 101, 99, 107, 99, 99],
+   [115, 119, 105, 102, 116, 116, 97, 105, 108, 99, 99],
+   [120, 56, 54, 95, 115, 116, 100, 99, 97, 108, 108, 99, 99],
+   [120, 56, 54, 95, 102, 97, 115, 116, 99, 97, 108, 108, 99, 99],
+   [97, 114, 109, 95, 97, 112, 99, 115, 99, 99],
+   [97, 114, 109, 95, 97, 97, 112, 99, 115, 99, 99],
+   [97, 114, 109, 95, 97, 97, 112, 99, 115, 95, 118, 102, 112, 99, 99],
+   [109, 115, 112, 52, 51, 48, 95, 105, 110, 116, 114, 99, 99],
+   [120, 56, 54, 95, 116, 104, 105, 115, 99, 97, 108, 108, 99, 99],
+   [112, 116, 120, 95, 107, 101, 114, 110, 101, 108],
+   [112, 116, 120, 95, 100, 101, 118, 105, 99, 101],
+   [115, 112, 105, 114, 95, 102, 117, 110, 99],
+   [115, 112, 105, 114, 95, 107, 101, 114, 110, 101, 108],
+   [105, 110, 116, 101, 108, 95, 111, 99, 108, 95, 98, 105, 99, 99],
+   [120, 56, 54, 95, 54, 52, 95, 115, 121, 115, 118, 99, 99],
+   [119, 105, 110, 54, 52, 99, 99],
+   [120, 56, 54, 95, 118, 101, 99, 116, 111, 114, 99, 97, 108, 108, 99, 99],
+   [104, 104, 118, 109, 99, 99],
+   [104, 104, 118, 109, 95, 99, 99, 99],
+   [120, 56, 54, 95, 105, 110, 116, 114, 99, 99],
+   [97, 118, 114, 95, 105, 110, 116, 114, 99, 99],
+   [97, 118, 114, 95, 115, 105, 103, 110, 97, 108, 99, 99],
+   [97, 109, 100, 103, 112, 117, 95, 118, 115],
+   [97, 109, 100, 103, 112, 117, 95, 103, 115],
+   [97, 109, 100, 103, 112, 117, 95, 112, 115],
+   [97, 109, 100, 103, 112, 117, 95, 99, 115],
+   [97, 109, 100, 103, 112, 117, 95, 107, 101, 114, 110, 101, 108],
+   [120, 56, 54, 95, 114, 101, 103, 99, 97, 108, 108, 99, 99],
+   [97, 109, 100, 103, 112, 117, 95, 104, 115],
+   [97, 109, 100, 103, 112, 117, 95, 108, 115],
+   [97, 109, 100, 103, 112, 117, 95, 101, 115],
+   [97, 97, 114, 99, 104, 54, 52, 95, 118, 101, 99, 116, 111, 114, 95, 112, 99, 115],
+   [97, 97, 114, 99, 104, 54, 52, 95, 115, 118, 101, 95, 118, 101, 99, 116, 111, 114, 95, 112, 99, 115],
+   [97, 109, 100, 103, 112, 117, 95, 103, 102, 120]]
+
+def kLead : List Bytes := kLinkage ++ kPreemption ++ kVisibility ++ kDLL ++ kCallingConv
+
+/-- the family a position of `kLead` belongs to: linkage 0, preemption 1, visibility 2, DLL storage class 3, calling convention 4 -/
+def leadFamily (i : Nat) : Nat :=
+  if i < kLinkage.length then 0
+  else if i < kLinkage.length + kPreemption.length then 1
+  else if i < kLinkage.length + kPreemption.length + kVisibility.length then 2
+  else if i < kLinkage.length + kPreemption.length + kVisibility.length + kDLL.length then 3
+  else 4
 
 def sDefine : Bytes := [100, 101, 102, 105, 110, 101, 32]     -- "define "
 def sOpen : Bytes := [41, 32, 123]                             -- ") {"
@@ -804,8 +892,10 @@ def paramsString : List (Ty × Ident) → Bytes
   | [(t, i)] => tyString t ++ [32] ++ identString i
   | (t, i) :: p :: ps => tyString t ++ [32] ++ identString i ++ sComma ++ paramsString (p :: ps)
 
-def headerString (f : Func) : Bytes :=
-  sDefine ++ tyString f.ret ++ [32] ++ Enc.globalName f.name ++ [40] ++ paramsString f.params ++ sOpen
+/-- the header from the return type on -/
+def headerRest (f : Func) : Bytes := tyString f.ret ++ [32] ++ Enc.globalName f.name ++ [40] ++ paramsString f.params ++ sOpen
+
+def headerString (f : Func) : Bytes := sDefine ++ flagsString kLead f.lead ++ headerRest f
 
 /-- one case of a switch on a line of its own: two tabs, `T c, label %b` (ir/terminator.go TermSwitch.LLString) -/
 def caseLine (useHex : Int → Bool) (c : Ty × Const × Ident) : Bytes :=
@@ -856,7 +946,7 @@ def sDeclare : Bytes := [100, 101, 99, 108, 97, 114, 101, 32]     -- "declare "
 
 /-- a function without blocks is a declaration (ir/func.go LLString): one line, the parameters with their names -/
 def declString (f : Func) : Bytes :=
-  sDeclare ++ tyString f.ret ++ [32] ++ Enc.globalName f.name ++ [40] ++ paramsString f.params ++ [41]
+  sDeclare ++ flagsString kLead f.lead ++ tyString f.ret ++ [32] ++ Enc.globalName f.name ++ [40] ++ paramsString f.params ++ [41]
 
 def printFunc (useHex : Int → Bool) (f : Func) : List Bytes :=
   if f.blocks.isEmpty then [declString f]
@@ -884,19 +974,21 @@ def readParams : Nat → Bytes → Option (List (Ty × Ident) × Bytes)
        | none => none)
     | _ => none
 
-def readHeader (s : Bytes) : Option (Ty × Bytes × List (Ty × Ident)) :=
+/-- `define [keywords] T @name(params) {`: (keywords as written, return type, name, parameters) -/
+def readHeader (s : Bytes) : Option (List Nat × Ty × Bytes × List (Ty × Ident)) :=
   match TyParse.stripPrefix sDefine s with
   | none => none
-  | some r0 =>
+  | some r00 =>
+    let (lead, r0) := readFlags (r00.length + 1) kLead r00
     match TyParse.parseTy (tyFuel r0) r0 with
     | some (rt, 32 :: 64 :: r1) =>
       (match takeBody r1 with
        | some (tok, 40 :: r2) =>
          (match Enc.decodeIdentBody tok with
           | .name n =>
-            if r2.head? == some 41 then (if r2 == sOpen then some (rt, n, []) else none)
+            if r2.head? == some 41 then (if r2 == sOpen then some (lead, rt, n, []) else none)
             else (match readParams (r2.length + 1) r2 with
-                  | some (ps, r3) => if r3 == sOpen then some (rt, n, ps) else none
+                  | some (ps, r3) => if r3 == sOpen then some (lead, rt, n, ps) else none
                   | none => none)
           | .id _ => none)
        | _ => none)
@@ -1038,7 +1130,7 @@ def readBlocks : Nat → List Bytes → Option (List Block)
            | none => none)
 
 /-- `declare T @f(params)`: read as the header of a definition -/
-def readDecl (s : Bytes) : Option (Ty × Bytes × List (Ty × Ident)) :=
+def readDecl (s : Bytes) : Option (List Nat × Ty × Bytes × List (Ty × Ident)) :=
   match TyParse.stripPrefix sDeclare s with
   | some r => readHeader (sDefine ++ r ++ [32, 123])
   | none => none
@@ -1046,10 +1138,10 @@ def readDecl (s : Bytes) : Option (Ty × Bytes × List (Ty × Ident)) :=
 def readFunc (ls : List Bytes) : Option Func :=
   match ls with
   | [] => none
-  | [h] => (match readDecl h with | some (rt, n, ps) => some ⟨rt, n, ps, []⟩ | none => none)
+  | [h] => (match readDecl h with | some (lead, rt, n, ps) => some ⟨rt, n, ps, [], lead⟩ | none => none)
   | h :: rest =>
     match readHeader h, readBlocks (rest.length + 1) rest with
-    | some (rt, n, ps), some bs => some ⟨rt, n, ps, bs⟩
+    | some (lead, rt, n, ps), some bs => some ⟨rt, n, ps, bs, lead⟩
     | _, _ => none
 
 /-! ### translation (asm/local.go) -/
@@ -1385,9 +1477,12 @@ def padsOK (f : Func) : Bool :=
     | some (_, want), some x => (match defRow f x with | some r => r == want | none => false)
     | _, _ => true
 
+/-- at most one keyword of each family, the families in the order of the grammar (a repeated or misplaced keyword is a syntax error) -/
+def leadOK (xs : List Nat) : Bool := xs.all (fun i => decide (i < kLead.length)) && strictAsc (xs.map leadFamily)
+
 /-- the parser on a function definition (asm/local.go): scaffold and AssignIDs (nameless values are numbered, written IDs validated), duplicate
     definitions, undefined uses, label operands that are not blocks (asm/helper.go irBlock); then the operand types -/
-def translateIn (ge : GEnv) (f : Func) : Option Func :=
+def translateCore (ge : GEnv) (f : Func) : Option Func :=
   match Numbering.parseAssign (slotsOf f) with
   | .error => none
   | .ok l =>
@@ -1395,6 +1490,18 @@ def translateIn (ge : GEnv) (f : Func) : Option Func :=
     if hasDupI (defs g) then none
     else if (uses g).all (fun u => (defs g).contains u) && (labUses g).all (fun u => (blockDefs g).contains u) && typed g &&
         (globUses g).all (fun n => (ge.map (·.1)).contains n) && callsOK ge g && padsOK g then some (retypeIn ge g) else none
+
+/-- …after the header keywords were checked (one of each family, in the order of the grammar) -/
+def translateIn (ge : GEnv) (f : Func) : Option Func := if leadOK f.lead then translateCore ge f else none
+
+theorem translateIn_core (ge : GEnv) (f g : Func) (h : translateIn ge f = some g) : translateCore ge f = some g ∧ leadOK f.lead = true := by
+  unfold translateIn at h
+  by_cases hc : leadOK f.lead = true
+  · simp only [hc, if_true] at h; exact ⟨h, hc⟩
+  · simp only [hc, Bool.false_eq_true, if_false] at h; cases h
+
+theorem translateIn_none_of_core (ge : GEnv) (f : Func) (h : translateCore ge f = none) : translateIn ge f = none := by
+  unfold translateIn; split <;> simp [h]
 
 /-- the type of a reference to a function: pointer to its signature (ir/func.go Type) -/
 def funcRefTy (f : Func) : Ty := .ptr (.func f.ret (TyList.ofList (f.params.map (·.1))) false) 0
@@ -1512,7 +1619,9 @@ def blockOKB (b : Block) : Bool :=
 
 /-- syntactic well-formedness: non-empty names, IDs within the parser's range, arguments matching the rows, one terminator per block (last) -/
 def wfSyn (f : Func) : Bool :=
-  !f.name.isEmpty && f.params.all (fun p => identOKB p.2) && f.blocks.all blockOKB
+  !f.name.isEmpty && f.params.all (fun p => identOKB p.2) && f.blocks.all blockOKB && leadOK f.lead &&
+  -- (no header keyword followed by a space starts the text of the return type: decidable side condition of the reader of the keywords)
+  kLead.all (fun k => (TyParse.stripPrefix (k ++ [32]) (headerRest f)).isNone)
 
 /-- the type written in front of every local operand is the type of that operand's definition -/
 def consistentOp (ge : GEnv) (e : List (Ident × Ty)) (t : Ty) : Operand → Bool
